@@ -14,14 +14,71 @@ var _ Pass = (*Unspec)(nil)
 //
 // Objects named "spec" will be renamed, using the package as new name.
 type Unspec struct {
+	// objects renamed by the pass: references to them have to follow
+	renamed []unspecRename
+}
+
+type unspecRename struct {
+	pkg  string
+	from string
+	to   string
 }
 
 func (pass *Unspec) Process(schemas []*ast.Schema) ([]*ast.Schema, error) {
+	pass.renamed = nil
+
 	for i, schema := range schemas {
 		schemas[i] = pass.processSchema(schema)
 	}
 
-	return schemas, nil
+	if len(pass.renamed) == 0 {
+		return schemas, nil
+	}
+
+	// references to the renamed objects – and entry points – are renamed as well
+	visitor := &Visitor{
+		OnRef:         pass.processRef,
+		OnConstantRef: pass.processConstantRef,
+	}
+
+	newSchemas, err := visitor.VisitSchemas(schemas)
+	if err != nil {
+		return nil, err
+	}
+
+	for _, schema := range newSchemas {
+		if newName, found := pass.newNameFor(schema.Package, schema.EntryPoint); found {
+			schema.EntryPoint = newName
+		}
+	}
+
+	return newSchemas, nil
+}
+
+func (pass *Unspec) newNameFor(pkg string, name string) (string, bool) {
+	for _, rename := range pass.renamed {
+		if rename.pkg == pkg && rename.from == name {
+			return rename.to, true
+		}
+	}
+
+	return "", false
+}
+
+func (pass *Unspec) processRef(_ *Visitor, _ *ast.Schema, def ast.Type) (ast.Type, error) {
+	if newName, found := pass.newNameFor(def.Ref.ReferredPkg, def.Ref.ReferredType); found {
+		def.Ref.ReferredType = newName
+	}
+
+	return def, nil
+}
+
+func (pass *Unspec) processConstantRef(_ *Visitor, _ *ast.Schema, def ast.Type) (ast.Type, error) {
+	if newName, found := pass.newNameFor(def.ConstantReference.ReferredPkg, def.ConstantReference.ReferredType); found {
+		def.ConstantReference.ReferredType = newName
+	}
+
+	return def, nil
 }
 
 func (pass *Unspec) processSchema(schema *ast.Schema) *ast.Schema {
@@ -41,6 +98,8 @@ func (pass *Unspec) processSchema(schema *ast.Schema) *ast.Schema {
 
 			object.SelfRef.ReferredType = object.Name
 			object.AddToPassesTrail(fmt.Sprintf("Unspec[%s → %s]", name, object.Name))
+
+			pass.renamed = append(pass.renamed, unspecRename{pkg: schema.Package, from: name, to: object.Name})
 		}
 
 		schema.AddObject(object)
